@@ -92,6 +92,14 @@ class Shadow:
                 self.epoch[self.owner[t]] = i
         elif k == "sever":
             for t in st["names"]:
+                # the other members of t's former family keep the old memory: they must not move t's epoch any more
+                old_members = [m for m, o in self.owner.items() if o == t and m != t]
+                if old_members:
+                    ghost = t + "@before-sever"
+                    self.epoch[ghost] = self.epoch.get(t, 0)
+                    self.idx[ghost] = self.idx.get(t)
+                    for m in old_members:
+                        self.owner[m] = ghost
                 v = self.it.env[t]
                 root = root_array(v)
                 self.roots[id(root)] = t
@@ -121,10 +129,24 @@ class Shadow:
 
 # ------------------------------------------------------------------------------------------------- O-fd
 class FD:
-    def __init__(self, prog, skip=()):
+    def __init__(self, prog, skip=(), blocks=()):
+        """blocks: statement indices i of in-place statements whose TARGET's previous contents are to be treated as constants (the
+        reference then is the program in which, right before statement i, the region the target covers is reset to its unperturbed
+        values): used only to CLASSIFY a known finding, never as the verdict's reference."""
         self.prog = prog
         self.skip = set(skip)
         self.nevals = 0
+        self.blocks = {}
+        if blocks:
+            it = Interp("np", fdtype=LD)
+            for i, st in enumerate(prog):
+                if i in self.skip:
+                    continue
+                if i in blocks:
+                    self.blocks[i] = np.array(it.env[st["tgt"]], copy=True)
+                if st["k"] == "backward" and i >= max(blocks):
+                    break
+                it.exec(i, st)
 
     def value(self, bw_idx, inject=None):
         """sum(L*g) of the longdouble NumPy program at backward statement bw_idx."""
@@ -133,7 +155,10 @@ class FD:
         for i in range(n):
             if i in self.skip:
                 continue
-            it.exec(i, self.prog[i])
+            if i in self.blocks:
+                self._exec_blocked(it, i)
+            else:
+                it.exec(i, self.prog[i])
             if inject and i in inject:
                 for name, delta in inject[i]:
                     tgt = it.env[name]
@@ -147,6 +172,30 @@ class FD:
         if g is None:
             return L.sum()
         return (L * np.asarray(g, dtype=LD)).sum()
+
+    def _exec_blocked(self, it, i):
+        """Statement i with the TARGET's own previous contents held constant: the other operands are read first (from the possibly
+        perturbed memory, copied), then the region the target covers is reset to its unperturbed values, then the update is applied."""
+        st = self.prog[i]
+        tgt = it.env[st["tgt"]]
+        cp = lambda v: np.array(v, copy=True) if isinstance(v, np.ndarray) else v
+        if st["k"] == "setitem":
+            ix, val = it.dec(st["index"]), cp(it.dec(st["value"]))
+            tgt[...] = self.blocks[i]
+            tgt[ix] = val
+        elif st["k"] == "aug":
+            val = cp(it.dec(st["value"]))
+            tgt[...] = self.blocks[i]
+            OT.apply_augmented(st["op"], tgt, val)
+        elif st["k"] == "uout":
+            spec = OT.SPECS[st["fn"]]
+            deep = lambda v: [deep(q) for q in v] if isinstance(v, (list, tuple)) else cp(v)
+            args = [deep(it.dec(a)) for a in st["a"]]
+            kw = {kk: cp(it.dec(v)) for kk, v in st.get("kw", {}).items() if kk not in ("constant", "dtype")}
+            tgt[...] = self.blocks[i]
+            spec.ref(*args, out=tgt, **kw)
+        else:
+            it.exec(i, st)
 
     def _f(self, bw_idx, stmt, owner, delta, eps):
         return self.value(bw_idx, {stmt: [(owner, (LD(eps) * delta))]})
